@@ -150,7 +150,8 @@ def recover_only(R, env, prog, sites, RULE):
     from engine.analysis import inline_walk as _iw
     inline_adds = [bi for bi, t_, args in call_sites(h, lambda nm: nm.endswith("AddAssign::add_assign"))]
     deep_adds = [1 for c_, p_ in _iw(prog, h, 3) if p_ for bi, t_, args in call_sites(c_, lambda nm: nm.endswith("AddAssign::add_assign"))]
-    if not inline_adds and deep_adds:
+    helper_mode = not inline_adds and bool(deep_adds)
+    if helper_mode:
         R.set_undecided([RULE], "recover sums the packets in a helper; only the in-line remove-and-sum loop is modelled")
     rms = [op for op in storage_ops_deep(prog, h, env.depth) if op["kind"] == "w" and ns_of(prog, op["args"][0]) == "inflight"]
     trs = shared.transfers(prog, h, env)
@@ -163,6 +164,36 @@ def recover_only(R, env, prog, sites, RULE):
         R.ob(RULE, "recover:remove-by-own-sequence", good, "packet removed under key %s, expected <element>.sequence of the iteration" % fmt(k)[:160], loc=op["loc"], fn=hk)
         if good:
             elem = k[1]
+    if helper_mode and elem is not None and elem[1][0] == "call" and elem[1][2]:
+        # the sum lives in a helper f(P): what is decided here is that the P it is given is the very collection value
+        # the removal loop iterates.  Two different versions of one collection (one of them truncated / retained /
+        # extended in between) are a contradiction: what is re-sent is not what is forgotten.
+        def versions(x):
+            out, stack = [], [x]
+            while stack:
+                y = stack.pop()
+                if y in out:
+                    continue
+                out.append(y)
+                if y[0] == "mut":
+                    stack.append(norm(y[1]))
+                elif y[0] == "phi":
+                    stack.extend(norm(z) for z in y[1])
+            return out
+        Pn = norm(elem[1][2][0])
+        for t in trs:
+            cands = [norm(a) for s_ in (subterms(t["amount"]) if t["amount"] is not None else []) if s_[0] == "call" and prog.body(s_[1]) is not None for a in s_[2]]
+            if any(a == Pn for a in cands):
+                verdict = True
+            else:
+                vp = versions(Pn)
+                rel = [a for a in cands if a != Pn and (a in vp or Pn in versions(a) or any(v[0] == "call" and v in vp for v in versions(a)))]
+                verdict = False if rel else None
+            if verdict is not None:
+                R.clear_undecided([RULE])
+                R.ob(RULE, "recover:summed-collection-is-the-removed-one", verdict, "the helper that sums the re-sent amount is given %s, while the removal loop iterates another version of that collection, %s" % ([fmt(a)[:60] for a in cands][:2], fmt(Pn)[:60]), loc=t["loc"], fn=hk)
+                R.set_undecided([RULE], "recover sums the packets in a helper; only the in-line remove-and-sum loop is modelled")
+
     def fold_sum(amt):
         """amt = P.iter().fold(0, |acc, p| acc + p.amount.amount): returns P, else None"""
         for s_ in (subterms(amt) if amt is not None else []):
